@@ -8,6 +8,7 @@ mod c01;
 mod c02;
 mod c03;
 mod c04;
+mod c05;
 mod c06;
 mod gen;
 mod util;
@@ -33,6 +34,7 @@ fn main() {
     "C02" => c02::run(&mut sink, &mut rng, thorough),
     "C03" => c03::run(&mut sink, &mut rng, thorough),
     "C04" => c04::run(&mut sink, &mut rng, thorough),
+    "C05" => c05::run(&mut sink, &mut rng, thorough),
     "C06" => c06::run(&mut sink, &mut rng, thorough),
     _ => {
       eprintln!("unknown property {}", prop);
